@@ -84,3 +84,40 @@ Theorem glob_gapfree_boundaries : forall shapes js g,
   exists x, valid (map prod_list shapes) x /\ glob (run shapes js) (map prod_list shapes) x = g.
 Proof. exact glob_gapfree_boundaries_l. Qed.
 Print Assumptions glob_gapfree_boundaries.
+
+(* Multipatch.assemble_system (A += X_p A_p X_p^T, b += X_p b_p, entry by entry in loop order):
+   the assembled matrix is the sum of the patch bilinear forms of the restrictions u o glob_p, and
+   the assembled vector the sum of the patch functionals -- for every join history, every number of
+   patches and all patch matrices/vectors and global vectors.  Together with glue_is_closure this is
+   the algebraic half of "the same system as the undivided domain up to renumbering"; the other half
+   (the patch forms add up to the form of the undivided domain) is additivity of the integral and is
+   compared on the implementation by the run. *)
+From Coq Require Import QArith Qcanon.
+From Verif.C14 Require Import ProofsAsm.
+Close Scope Q_scope.
+
+Theorem assemble_system_bilinear_form : forall ps Ns As u v,
+  let st := fold_left join1 ps init in
+  let N := numdofs st Ns in
+  sumn (fun g => sumn (fun h => v g * asm_mat st Ns As g h * u h)%Qc N) N =
+  fold_left (fun acc p => acc +
+     sumn (fun i => sumn (fun j => v (glob st Ns (p, i)) * As p i j * u (glob st Ns (p, j))) (nth p Ns 0%nat)) (nth p Ns 0%nat))%Qc
+     (seq 0 (length Ns)) 0%Qc.
+Proof. exact asm_bilinear_l. Qed.
+Print Assumptions assemble_system_bilinear_form.
+
+Theorem assemble_system_rhs_functional : forall ps Ns bs v,
+  let st := fold_left join1 ps init in
+  let N := numdofs st Ns in
+  sumn (fun g => v g * asm_rhs st Ns bs g)%Qc N =
+  fold_left (fun acc p => acc + sumn (fun i => v (glob st Ns (p, i)) * bs p i) (nth p Ns 0%nat))%Qc (seq 0 (length Ns)) 0%Qc.
+Proof. exact asm_rhs_l. Qed.
+Print Assumptions assemble_system_rhs_functional.
+
+(* entry form of one patch contribution: (X A X^T)[g, h] collects exactly the entries A[i, j] whose
+   local dofs are numbered g and h *)
+Theorem p2g_congruence_entry : forall idx n A g h,
+  xaxt idx n A g h =
+  sumn (fun i => sumn (fun j => if (Nat.eqb (nth i idx 0%nat) g && Nat.eqb (nth j idx 0%nat) h)%bool then A i j else 0%Qc) n) n.
+Proof. exact xaxt_entry. Qed.
+Print Assumptions p2g_congruence_entry.
